@@ -226,6 +226,14 @@ class Ctx:
             self.ensure_model()
             self.violations.append((msg, self.assignment(self.model)))
             raise Infeasible()
+        if len(self.trail) < len(self.prefix):
+            # still replaying the parent's decisions: the parent decided this
+            # very obligation under the identical path condition (and recorded
+            # the violation, if any); keep the same assumption, no new query
+            self.stats['replayed_checks'] = self.stats.get('replayed_checks', 0) + 1
+            self.stats['checks'] -= 1
+            self.solver.add(cond)
+            return True
         if self._check(z3.Not(cond)):
             self.violations.append((msg, self.assignment(self.solver.model())))
             if not self._check(cond):
